@@ -60,6 +60,9 @@ package main
 //@   atcall MarkActive before: snap matched := true
 // C17: at every log call of the handler the error in scope - the only value of the handler that can carry an address
 // when client address logging is off - is nil or address-free (one obligation per log call site)
+// C17 "flow description uses a placeholder instead of the remote address unless LOG_CLIENT_IP is set": the source part of
+// the per-connection log prefix is "_" whenever client address logging is off
+//@   atcall log.New before: assert @C17: logClientIP || originalSrc == "_"
 //@   atcall Errorln before: assert @C17: err == nil || addrFree(err)
 //@   atcall Errorf before: assert @C17: err == nil || addrFree(err)
 //@   atcall Warnf before: assert @C17: err == nil || addrFree(err)
